@@ -309,3 +309,13 @@ def delete_in_fanout_step():
         after2 = after + [store.Link(True, nb, nq, 1, o)]
     _port_checks(h, nodes, after2, "fan_then_add", 1, o, 1, o)
     _links_multiset(h, after2, "fan_then_add")
+
+
+# insert_hugr is one of the store operations of the statement: the inductive step is the C08 embedding lemma
+from vrf.harness import c08 as _c08  # noqa: E402
+from vrf.harness.c02 import deletion_masks as _masks  # noqa: E402
+
+lemma("C04", name="insert_hugr_step", params=lambda: [(m,) for m in _masks(4)],
+      unbounded="port offsets of the inserted HUGR's links",
+      bounds="as C08 insert_hugr_is_isomorphic_embedding (B with holes / index reuse / metadata / multi- and order links; one task per deletion set)",
+      outside="larger B / A", opts={"max_paths": 400000, "timeout_s": 3000})(_c08.insert_hugr_is_isomorphic_embedding)
